@@ -264,7 +264,26 @@ class Result:
         self.broken.append({"what": what, "detail": detail})
 
 
+def rerun_search_replay(mod, ctx, payload):
+    """Generic replay: re-run the property's model-independent search with the seed recorded in the replay file
+    and report whether a failure with the same key is found again on the current /repo."""
+    key = payload.get("key")
+    if key is None:
+        print("replay file names a broken obligation, not a failing input: %s" % json.dumps(payload.get("broken"), default=str)[:3000])
+        return 1
+    ctx.seed = int(payload.get("seed", ctx.seed))
+    ctx.suspect = True
+    res = Result()
+    mod.search(ctx, res)
+    same = [f for f in res.failures if f.key == key]
+    for f in same[:3]:
+        print("still failing:", f.what)
+    print("REPLAY: property %s key %s %s" % (ctx.pid, key, "still violated" if same else "not reproduced on this tree"))
+    return 1 if same else 0
+
+
 def write_replay(pid, payload, tag=None):
+    payload.setdefault("seed", seed())
     os.makedirs(REPLAY, exist_ok=True)
     name = "%s-%s-%d.json" % (pid, tag or "v", seed())
     path = os.path.join(REPLAY, name)
